@@ -53,6 +53,8 @@ V5 = [2, 3, 4, 6, 100]
 V6 = [2, 3, 4, 6, 7, 100]
 V7 = [2, 3, 4, 6, 7, 9, 100]
 V8 = [2, 3, 4, 6, 7, 9, 100, 101]
+VB4 = [1, 2, 5, 4094]           # the boundary ids: the default VLAN 1 and the last usable id, next to ordinary ones
+VB5 = [1, 2, 5, 6, 4094]
 RT_EXTRA = [1, 10, 11, 12, 4093, 4094, 50, 51, 53, 55]   # V8 + first k of these
 WRAP = 8
 
@@ -126,6 +128,11 @@ PLAN = {
         ("cat-vlan", V6, None, False), ("cat-swtrunk", V6, None, False),
         ("hw-batch", V4, None, True), ("nx-vlan", V4, None, True), ("cat-vlan", V4, None, True),
         ("hw-stp", V4, 2, False),
+        # the same rule kinds over the boundary ids (rules or logics that treat VLAN 1 or 4094 specially)
+        ("hw-trunk", VB4, None, False), ("hw-hybrid-tagged", VB4, None, False), ("hw-hybrid-untagged", VB4, None, False),
+        ("hw-batch", VB4, None, False), ("hw-stp", VB4, None, False), ("hw-pool", VB4, None, False),
+        ("nx-vlan", VB4, None, False), ("nx-swtrunk", VB4, None, False), ("nx-vlangroup", VB4, None, False),
+        ("cat-vlan", VB4, None, False), ("cat-swtrunk", VB4, None, False),
     ],
     "thorough": [
         ("hw-trunk", V8, None, False), ("hw-hybrid-tagged", V7, None, False), ("hw-hybrid-untagged", V7, None, False),
@@ -134,6 +141,10 @@ PLAN = {
         ("cat-vlan", V7, None, False), ("cat-swtrunk", V7, None, False),
         ("hw-batch", V5, None, True), ("nx-vlan", V5, None, True), ("cat-vlan", V5, None, True),
         ("hw-stp", V5, 3, False),
+        ("hw-trunk", VB5, None, False), ("hw-hybrid-tagged", VB5, None, False), ("hw-hybrid-untagged", VB5, None, False),
+        ("hw-batch", VB5, None, False), ("hw-stp", VB5, None, False), ("hw-pool", VB5, None, False),
+        ("nx-vlan", VB5, None, False), ("nx-swtrunk", VB5, None, False), ("nx-vlangroup", VB5, None, False),
+        ("cat-vlan", VB5, None, False), ("cat-swtrunk", VB5, None, False),
     ],
 }
 WIDE_KINDS = ["hw-trunk", "hw-hybrid-tagged", "hw-batch", "nx-vlan", "nx-swtrunk", "cat-vlan", "cat-swtrunk"]
